@@ -52,7 +52,7 @@ P = {
         "stall_s": 120,
     },
     "C10": {
-        "runs": {"quick": 3000, "thorough": 300000},
+        "runs": {"quick": 12000, "thorough": 300000},
         "budget_s": {"quick": 150, "thorough": 3000},
         "rule": "one scenario = one rate-limited UDP service (tftp, memcached, snmp, counterstrike) receiving grammar-derived request datagrams (incl. multi-command memcached datagrams) from 1-3 source IPs over 1-3 source ports each, bursts of 1-200, fake-clock gaps between 0 and 25 minutes, optionally several datagrams released in one step; responses are the datagrams the simulated kernel carried back, timestamped on the fake clock; run again with the other sources' datagrams removed; distinct = distinct trace digest; non-trivial = more than 4 requests in the scenario",
         "components": comp(real=["services tftp, memcached, snmp, counterstrike + services.Limiter (x/time/rate on the fake clock)", "listener/socket UDP path, DummyUDPConn"]),
